@@ -444,6 +444,7 @@ func (txn *Txn) InsertKey(key string, fn func(Row) error) error {
 	}
 
 	// If not found, insert at a new index
+	verifYield("key.checked", txn, 0)
 	idx, err := txn.insert(fn, 0)
 	txn.bufferFor(txn.owner.pk.name).PutString(commit.Put, idx, key)
 	return err
@@ -460,6 +461,7 @@ func (txn *Txn) UpsertKey(key string, fn func(Row) error) error {
 	}
 
 	// If not found, insert at a new index
+	verifYield("key.checked", txn, 0)
 	idx, err := txn.insert(fn, 0)
 	txn.bufferFor(txn.owner.pk.name).PutString(commit.Put, idx, key)
 	return err
